@@ -74,7 +74,7 @@ func drawCorruption(s *sim.Src, img []byte, prev []byte) corruption {
 	}
 	be32 := func(v uint32) []byte { b := make([]byte, 4); binary.BigEndian.PutUint32(b, v); return b }
 	be16 := func(v uint16) []byte { b := make([]byte, 2); binary.BigEndian.PutUint16(b, v); return b }
-	kind := s.Weighted([]int{6, 6, 4, 3, 6, 5, 5, 3, 3, 4, 3, 3, 3, 2, 4, 3, 3}, "corruption")
+	kind := s.Weighted([]int{6, 6, 4, 3, 6, 5, 5, 3, 3, 4, 3, 3, 3, 2, 4, 3, 7}, "corruption")
 	switch kind {
 	case 16: // crafted: an acyclic tower of interior pages, every child pointer of a level leading to the next
 		// No page is its own ancestor and the depth stays below any recursion limit, but a
